@@ -110,3 +110,15 @@ TEXT["C16"] = {
     "design_ref": "DESIGN.md section 3, C16",
     "level_note": "Needs go1.26.8 (testing/synctest). Members are scripted fakes; real I/O latencies are replaced by events.",
 }
+TEXT["C10"] = {
+    "technique": "property-based testing (rapid) of request timelines in virtual time (testing/synctest) against an in-memory world of registries and token servers that mints self-describing tokens; oracle = invariants over the logged arrivals plus a model of the token cache",
+    "level_text": "Generated timelines of requests with required / desired scopes, separated by virtual sleeps that straddle every token lifetime, run through ociauth's transport against fake registries (challenge scope exact / superset / unrelated / none) and token servers (grant, refuse over-wide, no POST endpoint, rotating refresh tokens, mixed lifetimes). Because time is virtual the expiry boundaries are exact. Every token that reaches a registry is decoded: it must have been minted for that host, be unexpired at arrival, cover the required scope when reused and the challenge scope when fresh; a usable cached token implies exactly one registry request and no token request; every token request's scope is checked as a set and, when the union adds nothing, as text.",
+    "design_ref": "DESIGN.md section 3, C10",
+    "level_note": "Needs go1.26.8. The fake world grants exactly what is asked (or refuses), which is what makes the token's own scope a faithful record of the transport's request.",
+}
+TEXT["C11"] = {
+    "technique": "property-based testing (rapid) with fault injection: generated multi-host conversations, RFC 7235 challenge shapes and token-server faults against ociauth's transport in a synctest bubble; oracle = secret search in every outgoing request, request/attempt bounds, caller-request snapshot, body-close tracking",
+    "level_text": "Each host has unique secrets (password, refresh token, static token, minted tokens). Conversations over 2-3 hosts (two differing only in port; realms on separate hosts or on another registry) with every challenge shape (Basic / Bearer / both / unknown schemes / quoted strings with escapes / malformed) and token-server faults (any status 300-599, malformed or empty JSON, token omitted, POST 404, refusal) are run; every outgoing request is searched for every secret and the destination must be allowed by what the owning registry has said so far; each call is bounded (<= 2 registry requests, 401 on a fresh token => 403 DENIED), leaves the caller's request unchanged and closes every body on every path, including config errors and second attempts.",
+    "design_ref": "DESIGN.md section 3, C11",
+    "level_note": "Needs go1.26.8 (shares the world with C10). Sampling over header shapes listed in the generator table plus their combinations with credentials and faults.",
+}
